@@ -201,6 +201,36 @@ def run(ck):
                             ck.fail("closed:norm", "state-vector norm not conserved within the bound", inp, float(nrm))
                     except Exception as e:
                         ck.fail("raises:svpropagate", "state-vector propagation raised %r" % (e,), inp)
+    # ---- a state vector propagated inside a basis context and used outside it: the same evolution (three and four levels: the
+    # transformation matrix is then not symmetric) -------------------------------------------------------------------------------
+    from quantarhei import eigenbasis_of
+    for nlev in (3, 4):
+        Hf = numpy.diag([0.0, 1.0, 1.25, 1.75][:nlev])
+        for i_ in range(nlev):
+            for j_ in range(i_ + 1, nlev):
+                Hf[i_, j_] = Hf[j_, i_] = (0.25, -0.125, 0.375, 0.0625, -0.3125, 0.1875)[(i_ * 3 + j_) % 6]
+        psi_f = numpy.array([0.5, 0.5j, -0.5, 0.5][:nlev], dtype=complex); psi_f = psi_f / numpy.linalg.norm(psi_f)
+        inp = {"H": Hf.tolist(), "psi0": [str(z) for z in psi_f], "history": "propagate inside eigenbasis_of(H); read outside"}
+        ck.case(("sv-in-context", nlev), nontrivial=True, kind="H", L=4, Nref=1, calls=1)
+        try:
+            taf = TimeAxis(0.0, 6, 0.5)
+            hf1, hf2 = Hamiltonian(data=Hf.copy()), Hamiltonian(data=Hf.copy())
+            out_ = numpy.array(StateVectorPropagator(taf, hf1).propagate(StateVector(data=psi_f.copy())).data).copy()
+            psi_obj2 = StateVector(data=psi_f.copy())            # the state is given in the site basis, outside the context
+            with eigenbasis_of(hf2):
+                ev_in = StateVectorPropagator(taf, hf2).propagate(psi_obj2)
+            in_ = numpy.array(ev_in.data).copy()
+            rho_sv = numpy.einsum("ti,tj->tij", in_, in_.conj())
+            rho_dm = numpy.array(ReducedDensityMatrixPropagator(taf, Hamiltonian(data=Hf.copy())).propagate(
+                ReducedDensityMatrix(data=numpy.outer(psi_f, psi_f.conj()))).data)
+            xs_ = float(numpy.linalg.norm(Hf * 0.5, 2))
+            d1_, d2_ = float(numpy.abs(in_ - out_).max()), float(numpy.abs(rho_sv - rho_dm).max())
+            ck.resid("state vector propagated inside a context vs outside", d1_)
+            if d1_ > 1e-10 or d2_ > 6 * SY.trunc_bound(xs_, 4, 5) + 1e-9:
+                ck.fail("closed:sv-vs-dm:propagated-in-context", "a state-vector evolution obtained inside eigenbasis_of(H) and read after the context differs from "
+                        "the one obtained outside / from the density-matrix propagation", inp, [d1_, d2_])
+        except Exception as e:
+            ck.fail("raises:svpropagate:in-context", "raised %r" % (e,), inp)
     rwa_cases(ck, qr, numpy, scipy)
     model = ck.drive(DRIVER, lines)
     if model is not None:
